@@ -13,6 +13,14 @@ Definition used_codes : list Z := [48; 78; 84; 70; 46; 83; 108; 102; 120; 115; 1
    Holds of xdis.marsh's reader and of CPython's marshal.c for every 3.x magic (instances at the end). *)
 Definition cfg_ok (c : cfg) : Prop := forallb (code_ok c) used_codes = true /\ vge c [3; 0] = true.
 
+(* code objects (dump_code3 layout, Python 3.0-3.10): what the proof needs of the reader's version tests *)
+Definition posonly_read (c : cfg) : bool := vge c [3; 8] && negb (zmem (magic_int c) [3400; 3401; 3410; 3411]).
+Definition default_pos (c : cfg) : Z := if vge c [3; 8] then 0 else -1.
+Definition code_cfg_ok (c : cfg) (has_pos : bool) : Prop :=
+  code_ok c 99 = true /\ vge c [3; 11] = false /\ vge c [2; 3] = true /\ vge c [1; 3] = true /\ vge c [2; 0] = true /\ vge c [1; 5] = true
+  /\ posonly_read c = has_pos.
+Definition in32 (x : Z) : Prop := - 2147483648 <= x < 2147483648.
+
 (* ---- integers on the wire ---- *)
 Lemma read_s32_w_long c x rest : - 2147483648 <= x < 2147483648 -> read_s32 c (w_long x ++ rest) = Ok (x, rest).
 Proof.
@@ -64,11 +72,28 @@ Proof.
   unfold zlen. rewrite Nat2Z.id, firstn_app, Nat.sub_diag, firstn_all, skipn_app, Nat.sub_diag, skipn_all. cbn. rewrite app_nil_r. reflexivity.
 Qed.
 
+
+(* posonlyargcount: dump_code3 writes it iff the code type has it; the reader reads it iff its version does, else supplies a default *)
+Lemma read_pos c hp pos L : posonly_read c = hp -> (if hp then in32 pos else pos = default_pos c) ->
+  (if vge c [3; 8]
+   then (if zmem (magic_int c) [3400; 3401; 3410; 3411] then Ok (0, (if hp then w_long pos else []) ++ L)
+         else read_s32 c ((if hp then w_long pos else []) ++ L))
+   else Ok (-1, (if hp then w_long pos else []) ++ L)) = Ok (pos, L).
+Proof.
+  unfold posonly_read, default_pos. intros Hr Hw. destruct hp.
+  - apply andb_true_iff in Hr. destruct Hr as [H38 Hz]. rewrite H38. apply negb_true_iff in Hz. rewrite Hz.
+    apply read_s32_w_long. exact Hw.
+  - cbn [app]. destruct (vge c [3; 8]); [|congruence]. cbn [andb] in Hr. apply negb_false_iff in Hr. rewrite Hr. congruence.
+Qed.
+
 (* ---- well-formed plain values ---- *)
 Section RT.
   Variable repr_float : Z -> list Z.
+  Variable has_pos : bool.
   Variable c : cfg.
   Hypothesis c_ok : cfg_ok c.
+  Variable allow_code : bool.            (* false: plain values only (xdis.marsh's reader has no code objects) *)
+  Hypothesis code_facts : allow_code = true -> code_cfg_ok c has_pos.
 
   Definition small_len {A} (l : list A) : Prop := zlen l < 2147483648.
 
@@ -83,7 +108,11 @@ Section RT.
   | wf_list l : small_len l -> Forall wfv l -> wfv (PList l)
   | wf_set l : small_len l -> Forall wfv l -> wfv (PSet l)
   | wf_fset l : small_len l -> Forall wfv l -> wfv (PFrozenSet l)
-  | wf_dict kv : Forall (fun p => wfv (fst p) /\ wfv (snd p)) kv -> wfv (PDict kv).
+  | wf_dict kv : Forall (fun p => wfv (fst p) /\ wfv (snd p)) kv -> wfv (PDict kv)
+  | wf_code argc pos kw nloc stk fl first code consts names varn freev cellv fname name lnotab :
+      allow_code = true -> Forall in32 [argc; kw; nloc; stk; fl; first] -> (if has_pos then in32 pos else pos = default_pos c) ->
+      Forall wfv [code; consts; names; varn; freev; cellv; fname; name; lnotab] ->
+      wfv (PCode [argc; pos; kw; nloc; stk; fl; first] [code; consts; names; varn; freev; cellv; fname; name; PNone; lnotab; PNone]).
 
   (* a well-formed value is never read back as NULL *)
   Lemma textify_not_null v : wfv v -> textify repr_float v <> PNull.
@@ -95,17 +124,18 @@ Section RT.
     match v with
     | PTuple l | PList l | PSet l | PFrozenSet l => S (dl l)
     | PDict kv => S (Nat.max 1 ((fix go (l : list (pv * pv)) : nat := match l with [] => O | (k, x) :: r => Nat.max (Nat.max (depth k) (depth x)) (go r) end) kv))
+    | PCode _ objs => S (dl objs)
     | _ => 1%nat
     end.
 
-  Definition dump_all := fix go (l : list pv) : list Z := match l with [] => [] | x :: r => dumps repr_float x ++ go r end.
+  Definition dump_all := fix go (l : list pv) : list Z := match l with [] => [] | x :: r => dumps repr_float has_pos x ++ go r end.
   Definition textify_all := fix go (l : list pv) : list pv := match l with [] => [] | x :: r => textify repr_float x :: go r end.
   Definition depth_all := fix go (l : list pv) : nat := match l with [] => O | x :: r => Nat.max (depth x) (go r) end.
-  Definition dump_kv := fix go (l : list (pv * pv)) : list Z := match l with [] => [] | (k, x) :: r => dumps repr_float k ++ dumps repr_float x ++ go r end.
+  Definition dump_kv := fix go (l : list (pv * pv)) : list Z := match l with [] => [] | (k, x) :: r => dumps repr_float has_pos k ++ dumps repr_float has_pos x ++ go r end.
   Definition textify_kv := fix go (l : list (pv * pv)) := match l with [] => [] | (k, x) :: r => (textify repr_float k, textify repr_float x) :: go r end.
   Definition depth_kv := fix go (l : list (pv * pv)) : nat := match l with [] => O | (k, x) :: r => Nat.max (Nat.max (depth k) (depth x)) (go r) end.
 
-  Lemma dumps_nonempty v : wfv v -> (1 <= List.length (dumps repr_float v))%nat.
+  Lemma dumps_nonempty v : wfv v -> (1 <= List.length (dumps repr_float has_pos v))%nat.
   Proof. intros H; inversion H; subst; cbn; try lia. Qed.
 
   Lemma dump_all_length l : Forall wfv l -> (List.length l <= List.length (dump_all l))%nat.
@@ -145,8 +175,17 @@ Section RT.
 
   Ltac used := unfold used_codes; cbn [In]; tauto.
 
+  Lemma step_code f l st : code_ok c 99 = true ->
+    r_object (S f) c (with_inp st (99 :: l)) = r_code c (r_object f c) false (with_inp st (99 :: l)) l.
+  Proof.
+    intros Hc. cbn [r_object inp with_inp].
+    assert (Hf : (mask_flag c && negb (Z.land 99 128 =? 0)) = false) by (destruct (mask_flag c); reflexivity).
+    assert (Ht : (if mask_flag c then Z.land 99 127 else 99) = 99) by (destruct (mask_flag c); reflexivity).
+    rewrite Hf, Ht, Hc. rewrite andb_false_r. cbn [negb]. reflexivity.
+  Qed.
+
   Definition RT (f : nat) (v : pv) : Prop :=
-    forall st rest, r_object f c (with_inp st (dumps repr_float v ++ rest)) = Ok (textify repr_float v, with_inp st rest).
+    forall st rest, r_object f c (with_inp st (dumps repr_float has_pos v ++ rest)) = Ok (textify repr_float v, with_inp st rest).
 
   Lemma read_objs_all f : forall l, Forall wfv l -> Forall (RT f) l ->
     forall k acc st rest, (List.length l <= k)%nat ->
@@ -298,10 +337,37 @@ Section RT.
         unfold with_inp in Hrd |- *. cbn [inp refs strs] in Hrd |- *.
         rewrite Hrd by (rewrite app_length; pose proof (dump_kv_length kv H); cbn [List.length]; lia).
         reflexivity.
+      + (* code object: dump_code3 against r_code *)
+        destruct (code_facts H) as (H99 & H311 & H23 & H13 & H20 & H15 & Hpos).
+        destruct c_ok as [_ H30].
+        repeat match goal with Hf : Forall _ (_ :: _) |- _ => inversion Hf; clear Hf; subst end.
+        cbn [depth] in Hd.
+        assert (Hdd : (Nat.max (depth code) (Nat.max (depth consts) (Nat.max (depth names) (Nat.max (depth varn) (Nat.max (depth freev) (Nat.max (depth cellv)
+                        (Nat.max (depth fname) (Nat.max (depth name) (Nat.max 1 (Nat.max (depth lnotab) (Nat.max 1 0)))))))))) <= f)%nat) by (cbn [depth] in Hd; lia).
+        assert (Rcode := IHf code ltac:(assumption) ltac:(lia)). assert (Rconsts := IHf consts ltac:(assumption) ltac:(lia)).
+        assert (Rnames := IHf names ltac:(assumption) ltac:(lia)). assert (Rvarn := IHf varn ltac:(assumption) ltac:(lia)).
+        assert (Rfreev := IHf freev ltac:(assumption) ltac:(lia)). assert (Rcellv := IHf cellv ltac:(assumption) ltac:(lia)).
+        assert (Rfname := IHf fname ltac:(assumption) ltac:(lia)). assert (Rname := IHf name ltac:(assumption) ltac:(lia)).
+        assert (Rlnotab := IHf lnotab ltac:(assumption) ltac:(lia)).
+        cbn [dumps textify]. cbn [app]. rewrite step_code by exact H99.
+        unfold r_code, w_int. cbn [reserve inp with_inp]. rewrite H23, H311, H30, H13, H20, H15.
+        repeat rewrite <- app_assoc.
+        rewrite (read_s32_w_long c argc) by assumption. cbn [bind].
+        (* posonlyargcount: written iff the reader reads it; otherwise the reader supplies its default *)
+        rewrite (read_pos c has_pos pos _ Hpos ltac:(assumption)). cbn [bind].
+        rewrite (read_s32_w_long c kw) by assumption. cbn [bind].
+        rewrite (read_s32_w_long c nloc) by assumption. cbn [bind].
+        rewrite (read_s32_w_long c stk) by assumption. cbn [bind].
+        rewrite (read_s32_w_long c fl) by assumption. cbn [bind].
+        rewrite (Rcode _ _). cbn [bind]. rewrite (Rconsts _ _). cbn [bind]. rewrite (Rnames _ _). cbn [bind].
+        rewrite (Rvarn _ _). cbn [bind]. rewrite (Rfreev _ _). cbn [bind]. rewrite (Rcellv _ _). cbn [bind].
+        rewrite (Rfname _ _). cbn [bind]. rewrite (Rname _ _). cbn [bind inp with_inp].
+        rewrite (read_s32_w_long c first) by assumption. cbn [bind].
+        rewrite (Rlnotab _ _). cbn [bind insert]. reflexivity.
   Qed.
 
   (* nesting never exceeds the number of bytes written: the fuel `load` gives (one more than the input length) is enough *)
-  Lemma depth_le_len : forall n v, wfv v -> (depth v <= n)%nat -> (depth v <= List.length (dumps repr_float v))%nat.
+  Lemma depth_le_len : forall n v, wfv v -> (depth v <= n)%nat -> (depth v <= List.length (dumps repr_float has_pos v))%nat.
   Proof.
     induction n as [|n IH]; intros v Hw Hd; [destruct v; cbn in Hd; lia|].
     assert (Hall : forall l, Forall wfv l -> (depth_all l <= n)%nat -> (depth_all l <= List.length (dump_all l))%nat).
@@ -310,21 +376,27 @@ Section RT.
     assert (Hkv : forall kv, Forall (fun p => wfv (fst p) /\ wfv (snd p)) kv -> (depth_kv kv <= n)%nat -> (depth_kv kv <= List.length (dump_kv kv))%nat).
     { induction kv as [|[k x] kv IHl]; intros Hwl Hdl; [cbn; lia|]. inversion Hwl as [|? ? [Hk Hx] ?]; subst. cbn [depth_kv dump_kv fst snd] in *. rewrite !app_length.
       pose proof (IH k Hk ltac:(lia)). pose proof (IH x Hx ltac:(lia)). pose proof (IHl ltac:(assumption) ltac:(lia)). lia. }
-    inversion Hw; subst; cbn [depth dumps] in *; try (cbn; lia).
+    inversion Hw; subst; try (apply (dumps_nonempty _ Hw)); cbn [depth dumps] in *.
     - fold depth_all in *. fold dump_all. cbn [List.length]. rewrite !app_length. pose proof (Hall l ltac:(assumption) ltac:(lia)). cbn. lia.
     - fold depth_all in *. fold dump_all. cbn [List.length]. rewrite !app_length. pose proof (Hall l ltac:(assumption) ltac:(lia)). cbn. lia.
     - fold depth_all in *. fold dump_all. cbn [List.length]. rewrite !app_length. pose proof (Hall l ltac:(assumption) ltac:(lia)). cbn. lia.
     - fold depth_all in *. fold dump_all. cbn [List.length]. rewrite !app_length. pose proof (Hall l ltac:(assumption) ltac:(lia)). cbn. lia.
     - fold depth_kv in *. fold dump_kv. cbn [List.length]. rewrite !app_length. pose proof (Hkv kv ltac:(assumption) ltac:(lia)). cbn [List.length]. lia.
+    - repeat match goal with Hf : Forall _ (_ :: _) |- _ => inversion Hf; clear Hf; subst end.
+      cbn [depth] in Hd.
+      pose proof (IH code ltac:(assumption) ltac:(lia)). pose proof (IH consts ltac:(assumption) ltac:(lia)). pose proof (IH names ltac:(assumption) ltac:(lia)).
+      pose proof (IH varn ltac:(assumption) ltac:(lia)). pose proof (IH freev ltac:(assumption) ltac:(lia)). pose proof (IH cellv ltac:(assumption) ltac:(lia)).
+      pose proof (IH fname ltac:(assumption) ltac:(lia)). pose proof (IH name ltac:(assumption) ltac:(lia)). pose proof (IH lnotab ltac:(assumption) ltac:(lia)).
+      cbn [List.length]. rewrite !app_length. unfold w_long, enc32. cbn [List.length depth]. lia.
   Qed.
 
   Theorem loads_dumps v : wfv v ->
-    r_object (S (List.length (dumps repr_float v))) c {| inp := dumps repr_float v; refs := []; strs := [] |}
+    r_object (S (List.length (dumps repr_float has_pos v))) c {| inp := dumps repr_float has_pos v; refs := []; strs := [] |}
     = Ok (textify repr_float v, {| inp := []; refs := []; strs := [] |}).
   Proof.
     intros Hw.
-    pose proof (marsh_roundtrip (S (List.length (dumps repr_float v))) v Hw) as H.
-    assert (Hd : (depth v <= S (List.length (dumps repr_float v)))%nat) by (pose proof (depth_le_len (depth v) v Hw (Nat.le_refl _)); lia).
+    pose proof (marsh_roundtrip (S (List.length (dumps repr_float has_pos v))) v Hw) as H.
+    assert (Hd : (depth v <= S (List.length (dumps repr_float has_pos v)))%nat) by (pose proof (depth_le_len (depth v) v Hw (Nat.le_refl _)); lia).
     specialize (H Hd {| inp := []; refs := []; strs := [] |} []). unfold with_inp in H. cbn [inp refs strs] in H. rewrite app_nil_r in H. exact H.
   Qed.
 End RT.
